@@ -69,8 +69,19 @@ func (e *Engine) Run(env *core.Env, run int, res *core.Result) *core.Violation {
 	}
 	rng := core.NewRand(core.RunSeed(env.Seed, env.Property, run))
 	sc := def.Gen(rng, env, run)
+	race := os.Getenv("VERIF_RACE") == "1"
+	if race {
+		sc.Knobs.Burst = true
+		sc.Knobs.YieldRMW = false
+		for i := range sc.Clients {
+			sc.Clients[i].Chunked = false
+		}
+	}
 	body, _ := json.Marshal(sc)
-	c := &core.Case{Property: env.Property, Engine: "e1", Seed: env.Seed, Run: run, Body: body, GenTape: true, ReplayExact: true}
+	c := &core.Case{Property: env.Property, Engine: "e1", Seed: env.Seed, Run: run, Body: body, GenTape: true, ReplayExact: !race}
+	if race {
+		c.Profile = "race"
+	}
 	env.J.Begin(c)
 	tape := core.NewGenTape(core.NewRand(tapeSeed(env, run)))
 	rr := runWith(def, e.T, sc, tape, env.J, false)
